@@ -1,7 +1,10 @@
 #!/venv/bin/python
 """List / copy the files an agent's working copy adds or changes relative to /verif.
+Only files the copy changed ITSELF (relative to the commit it was copied at, `git status` in the copy) are
+considered, so that copies taken at the same commit can be integrated one after the other without the later
+ones copying back the older versions of files the earlier ones changed.
 usage: tools_integrate.py <copy-dir> [--apply] [--skip path …]"""
-import filecmp, os, shutil, sys
+import filecmp, os, shutil, subprocess, sys
 copy = sys.argv[1].rstrip('/')
 apply = '--apply' in sys.argv
 skip = set()
@@ -13,13 +16,15 @@ PROTECT = {'harness/core.py', 'run_check.py', 'DESIGN.md', 'properties.jsonl', '
            'lean/lakefile.toml', 'lean/PagexmlModel/Drv/All.lean', 'lean/PagexmlModel/Drv/Util.lean',
            'lean/PagexmlModel/Basic/Err.lean', 'known_findings.json', '.gitignore', 'lean/lake-manifest.json',
            'harness/props/c03.py', 'harness/props/c10.py', 'harness/translate.py'}
+_st = subprocess.run(['git', '-C', copy, 'status', '--porcelain', '--untracked-files=all'], stdout=subprocess.PIPE)
+TOUCHED = {l[3:].split(' -> ')[-1].strip('"') for l in _st.stdout.decode().split('\n') if l.strip()} if _st.returncode == 0 else None
 for root, dirs, files in os.walk(copy):
     dirs[:] = [d for d in dirs if d not in IGN and not d.startswith('repo')]
     for f in files:
         src = os.path.join(root, f)
         rel = os.path.relpath(src, copy)
         dst = os.path.join('/verif', rel)
-        if f.endswith('.pyc') or rel in skip:
+        if f.endswith('.pyc') or rel in skip or (TOUCHED is not None and rel not in TOUCHED):
             continue
         if not os.path.exists(dst):
             status = 'NEW'
